@@ -4,10 +4,11 @@
 (* part streams sc / su of both computed by the harness' walker, plus -- for   *)
 (* generated vectors -- the abstract message.                                  *)
 (*                                                                             *)
-(*   verdict  Compress!JudgeStreams(bytesC, bytesU, sc, su): first violated    *)
+(*   verdict  Compress!JudgeStreamsH(bytesC, bytesU, sc, su): first violated   *)
 (*            clause (transparency with case, never longer, every pointer      *)
 (*            below MaxOff, backwards, at a name-suffix start, none in         *)
-(*            uncompressible RDATA, none at all with Compress = false).        *)
+(*            uncompressible RDATA, none at all with Compress = false, no name *)
+(*            read through more than MaxPtrHops pointers).                     *)
 (*            The streams are re-checked against the octets (Tiles, NameOK):   *)
 (*            a stream that does not lie on the octets is "ill:...".           *)
 (*   small messages (<= Small octets) are also walked by TLC itself            *)
@@ -31,6 +32,7 @@ Ev == Trace[l]
 StageWhere(e, stage) ==
   LET pc == PtrBad(e.sc, TRUE)  pu == PtrBad(e.su, FALSE) IN
   IF pu # 0 THEN WhereOf(e.su, pu)
+  ELSE IF stage = "pointer-chain-too-deep" THEN WhereOf(e.sc, ChainBad(e.sc))
   ELSE IF stage = "not-transparent" THEN
     LET d  == IF Len(e.sc) # Len(e.su) THEN Min(Len(e.sc), Len(e.su)) ELSE FirstDiff(e.sc, e.su, e.bytesC, e.bytesU)
         ns == { x \in 1..Len(e.sc) : x <= d /\ e.sc[x].k = "n" }
@@ -53,20 +55,25 @@ Ill(e, stage) ==
   IF stage \in {"ill:uncompressed-stream", "ill:compressed-stream"} THEN stage
   ELSE IF e.hasmsg /\ ~SamePlan(e.su, e.msg) THEN "ill:bytesU-is-not-the-message-meant"
   ELSE IF Len(e.bytesU) <= Small THEN
-    LET own == ValidCompressedStage(e.bytesC, e.bytesU)
+    LET own == ValidCompressedStageH(e.bytesC, e.bytesU)
         wu  == StreamOf(e.bytesU)  wc == StreamOf(e.bytesC) IN
     IF own # stage THEN "ill:judges-disagree:" \o own
     ELSE IF wu.ok /\ WithHints(wu.parts) # e.su THEN "ill:walker-differs-on-bytesU"
     ELSE IF wc.ok /\ WithHints(wc.parts) # e.sc THEN "ill:walker-differs-on-bytesC"
+    ELSE IF wc.ok /\ stage \in {"ok", "pointer-chain-too-deep"} /\
+            \E x \in 1..Len(e.sc) : e.sc[x].k = "n" /\ Hops(e.sc, x) # DecName(e.bytesC, e.sc[x].a).hops
+         THEN "ill:chain-measure-differs"
     ELSE "ok"
   ELSE "ok"
 
 Init == l = 1 /\ HWInit /\ TLCSet(3, <<>>) /\ TLCSet(4, <<>>) /\ TLCSet(5, <<>>)
 Next == /\ l <= Len(Trace)
         /\ LET e == Ev
-               stage == JudgeStreams(e.bytesC, e.bytesU, e.sc, e.su, 12)
+               stage == JudgeStreamsH(e.bytesC, e.bytesU, e.sc, e.su, 12)
                ill == Ill(e, stage)
-               pred == PackImpl(PlanFrom(e.su, 1, 0, <<>>), 12, CompressibleOctets(e.bytesU))
+               \* informational, and costly on hundreds of 238-octet names: not computed beyond 60000 octets
+               pred == IF Len(e.bytesU) > 60000 THEN Len(e.bytesC)
+                       ELSE PackImpl(PlanFrom(e.su, 1, 0, <<>>), 12, CompressibleOctets(e.bytesU))
            IN /\ IF ill # "ok" THEN TLCSet(3, Append(TLCGet(3), <<l, ill>>))
                  ELSE IF stage # "ok" THEN MarkBad(l) /\ TLCSet(4, Append(TLCGet(4), <<l, stage, StageWhere(e, stage)[1], StageWhere(e, stage)[2]>>))
                  ELSE TRUE
